@@ -165,20 +165,71 @@ fn append_args(r: &mut Rng, c: &Ctx) -> String {
     s
 }
 
+/// the inclusive value a bound token stands for (`None` for `un` and for bounds that exclude everything)
+fn tok_incl(t: &str, lower: bool) -> Option<u64> {
+    if let Some(v) = t.strip_prefix("in:") {
+        v.parse().ok()
+    } else if let Some(v) = t.strip_prefix("ex:") {
+        let v: u64 = v.parse().ok()?;
+        if lower {
+            v.checked_add(1)
+        } else {
+            v.checked_sub(1)
+        }
+    } else {
+        None
+    }
+}
+
+/// a removal whose bounds are taken from values that were inserted earlier (`marks`: single values and the two ends of
+/// inserted ranges) and from the edges of their partitions: the range then ends EXACTLY on the largest / smallest value of a
+/// partition, covers exactly a partition's population, or runs from a partition edge to such a value — the places where
+/// "this partition is now empty" has to be decided
+fn tight_remove(r: &mut Rng, marks: &[u64]) -> (String, String) {
+    let a = *r.pick(marks);
+    let b = *r.pick(marks);
+    let (a, b) = if a <= b { (a, b) } else { (b, a) };
+    let lo = match r.below(6) {
+        0 => "un".to_string(),
+        1 => format!("in:{}", a & !(P32 - 1)),                       // the start of a's partition
+        2 => format!("in:{}", (a & !(P32 - 1)).saturating_sub(P32)), // the start of the partition below
+        3 if a > 0 => format!("ex:{}", a - 1),
+        _ => format!("in:{}", a),
+    };
+    let hi = match r.below(6) {
+        0 => "un".to_string(),
+        1 => format!("in:{}", b | (P32 - 1)), // the end of b's partition
+        2 if b < u64::MAX => format!("ex:{}", b + 1),
+        _ => format!("in:{}", b),
+    };
+    (lo, hi)
+}
+
 pub fn gen_case(r: &mut Rng, out: &mut String) {
     let c = Ctx::new(r);
     let nops = r.range(5, 30);
+    let mut marks: Vec<u64> = Vec::new();
     writeln!(out, "tnew t0").unwrap();
     for _ in 0..nops {
         match r.below(26) {
-            0..=4 => writeln!(out, "tinsert t0 {}", value64(r, &c)).unwrap(),
+            0..=4 => {
+                let v = value64(r, &c);
+                marks.push(v);
+                writeln!(out, "tinsert t0 {}", v).unwrap()
+            }
             5..=6 => writeln!(out, "tremove t0 {}", value64(r, &c)).unwrap(),
             7..=10 => {
                 let (lo, hi) = range_tokens64(r, &c, false);
+                if let (Some(a), Some(b)) = (tok_incl(&lo, true), tok_incl(&hi, false)) {
+                    if a <= b {
+                        marks.push(a);
+                        marks.push(b);
+                    }
+                }
                 writeln!(out, "tinsert_range t0 {} {}", lo, hi).unwrap()
             }
             11..=13 => {
-                let (lo, hi) = range_tokens64(r, &c, true);
+                let (lo, hi) = if !marks.is_empty() && r.chance(2, 5) { tight_remove(r, &marks) } else { range_tokens64(r, &c, true) };
                 writeln!(out, "tremove_range t0 {} {}", lo, hi).unwrap()
             }
             14..=15 => {
